@@ -128,6 +128,24 @@ macro_rules! float_fns {
             pub fn s_neg(x: $t) -> $t {
                 -x
             }
+            /// not idempotent; maps the finite inputs +0.0 / -0.0 to infinities
+            pub fn s_recip(x: $t) -> $t {
+                1.0 / x
+            }
+            /// not idempotent; maps large finite inputs to infinities
+            pub fn s_quad(x: $t) -> $t {
+                x * 4.0
+            }
+            /// idempotent; maps finite inputs beyond 1e30 to infinities
+            pub fn s_big2inf(x: $t) -> $t {
+                if x > 1e30 {
+                    <$t>::INFINITY
+                } else if x < -1e30 {
+                    <$t>::NEG_INFINITY
+                } else {
+                    x
+                }
+            }
             /// not idempotent
             pub fn s_add1(x: $t) -> $t {
                 x + 1.0
